@@ -582,11 +582,12 @@ class Compiler:
 
             self._emit(OpCode.JUMP, loop_start)
             self._patch_jump(jump_done)
-            self._emit(OpCode.POP)  # Pop iterator
-
-            # Patch break and continue jumps
+            # Break jumps land here, while the iterator is still on the stack
             for pos in loop_ctx.break_jumps:
                 self._patch_jump(pos)
+            self._emit(OpCode.POP)  # Pop iterator
+
+            # Patch continue jumps
             for pos in loop_ctx.continue_jumps:
                 self._patch_jump(pos, loop_start)
 
@@ -634,11 +635,12 @@ class Compiler:
 
             self._emit(OpCode.JUMP, loop_start)
             self._patch_jump(jump_done)
-            self._emit(OpCode.POP)  # Pop iterator
-
-            # Patch break and continue jumps
+            # Break jumps land here, while the iterator is still on the stack
             for pos in loop_ctx.break_jumps:
                 self._patch_jump(pos)
+            self._emit(OpCode.POP)  # Pop iterator
+
+            # Patch continue jumps
             for pos in loop_ctx.continue_jumps:
                 self._patch_jump(pos, loop_start)
 
@@ -790,6 +792,9 @@ class Compiler:
                     self._compile_statement(stmt)
 
             self._patch_jump(jump_end)
+            # Break jumps land here, while the discriminant is still on the stack
+            for pos in loop_ctx.break_jumps:
+                self._patch_jump(pos)
             self._emit(OpCode.POP)  # Pop discriminant
 
             # Patch jumps to case bodies
@@ -798,10 +803,6 @@ class Compiler:
             if default_jump:
                 pos, idx = default_jump
                 self._patch_jump(pos, case_positions[idx])
-
-            # Patch break jumps
-            for pos in loop_ctx.break_jumps:
-                self._patch_jump(pos)
 
             self.loop_stack.pop()
 
